@@ -41,6 +41,68 @@ LEVEL = 'proof'
 CONDITIONAL: Dict[str, Set[str]] = {}      # regex name -> characters it escapes only under a look-around condition
 
 
+def _class_has(items: Any, ch: str) -> Optional[bool]:
+    """does the character class (items of an sre IN node) contain ch?  None = a class item that is not modelled"""
+    neg = False
+    hit = False
+    o = ord(ch)
+    for op, av in items:
+        if op is sre_c.NEGATE:
+            neg = True
+        elif op is sre_c.LITERAL:
+            hit |= av == o
+        elif op is sre_c.RANGE:
+            hit |= av[0] <= o <= av[1]
+        elif op is sre_c.CATEGORY:
+            name = str(av)
+            table = {'CATEGORY_DIGIT': ch.isdigit(), 'CATEGORY_NOT_DIGIT': not ch.isdigit(), 'CATEGORY_SPACE': ch.isspace(), 'CATEGORY_NOT_SPACE': not ch.isspace(),
+                     'CATEGORY_WORD': ch.isalnum() or ch == '_', 'CATEGORY_NOT_WORD': not (ch.isalnum() or ch == '_')}
+            if name not in table:
+                return None
+            hit |= table[name]
+        else:
+            return None
+    return hit != neg
+
+
+def fast_path_leaks(rx: Regex, method: str, needs: Set[str]) -> Optional[Set[str]]:
+    """characters of `needs` that can occur in a string for which `RX.<method>(text)` succeeds, for a pattern of the form `<class>*` with an
+    optional end anchor - the "nothing to escape here" pre-check.  None = pattern form not enumerated."""
+    try:
+        items = list(sre_parse.parse(rx.pattern, rx.flags))
+    except re.error:
+        return None
+    anchor = None
+    if items and items[-1][0] is sre_c.AT:
+        anchor = str(items[-1][1])
+        items = items[:-1]
+    if items and items[0][0] is sre_c.AT and str(items[0][1]) in ('AT_BEGINNING', 'AT_BEGINNING_STRING'):
+        items = items[1:]
+    if len(items) != 1 or items[0][0] is not sre_c.MAX_REPEAT:
+        return None
+    lo, hi, body = items[0][1]
+    body = list(body)
+    if hi != sre_c.MAXREPEAT or len(body) != 1 or body[0][0] is not sre_c.IN:
+        return None
+    inside: Set[str] = set()
+    for ch in needs:
+        r = _class_has(body[0][1], ch)
+        if r is None:
+            return None
+        if r:
+            inside.add(ch)
+    if method == 'fullmatch':
+        return inside
+    if method == 'match':
+        if anchor == 'AT_END_STRING':
+            return inside
+        if anchor == 'AT_END' and not (rx.flags & re.MULTILINE):
+            # `$` also matches just before a line feed that ends the string
+            return inside | ({'\n'} & needs)
+        return set(needs)          # no end anchor (or a per-line one): only a prefix is inspected
+    return None
+
+
 def regex_charset(rx: Regex, what: str) -> Set[str]:
     """Set of single characters matched by a regex that must be a pure alternation/class of literals."""
     try:
@@ -181,6 +243,43 @@ def run(ctx: Any, prog: Program) -> None:
         keyed = all(len(et.args.args) >= 2 for _ in decorated_cache)
         ctx.check('C02.T2', keyed, tk, et, 'escape_text is memoised by a decorator: both arguments are part of the key', func='escape_text', text='memoised on (text, multiline)')
     rets = [n for n in ast.walk(et) if isinstance(n, ast.Return)]
+    # "nothing to escape" pre-checks: leading `if <test on text>: return text`.  Each is sound only if no string it lets through contains a
+    # character the single-line mode has to escape (S1 is the larger of the two sets).
+    et_text = et.args.args[0].arg
+    for st in list(et.body):
+        if not (isinstance(st, ast.If) and not st.orelse and len(st.body) == 1 and isinstance(st.body[0], ast.Return) and dotted(st.body[0].value) == et_text):
+            continue
+        rets = [r for r in rets if r is not st.body[0]]
+        t = st.test
+        negated = False
+        if isinstance(t, ast.UnaryOp) and isinstance(t.op, ast.Not):
+            negated, t = True, t.operand
+        if isinstance(t, ast.Compare) and len(t.ops) == 1 and isinstance(t.comparators[0], ast.Constant) and t.comparators[0].value is None and isinstance(t.ops[0], (ast.Is, ast.IsNot)):
+            negated = negated != isinstance(t.ops[0], ast.Is)
+            t = t.left
+        leaks: Optional[Set[str]] = None
+        what = U(st.test)
+        if isinstance(t, ast.Name) and t.id == et_text and negated:
+            leaks = set()                                                   # `if not text`
+        elif isinstance(t, ast.Call) and isinstance(t.func, ast.Attribute) and dotted(t.func.value) == et_text and t.func.attr in ('isalnum', 'isalpha', 'isdigit', 'isdecimal', 'isnumeric', 'isidentifier') and not negated:
+            leaks = set()
+        elif isinstance(t, ast.Call) and isinstance(t.func, ast.Attribute) and isinstance(t.func.value, ast.Name) and len(t.args) == 1 and dotted(t.args[0]) == et_text:
+            try:
+                frx = fold.global_(t.func.value.id)
+            except Exception:
+                frx = None
+            if isinstance(frx, Regex):
+                if t.func.attr in ('match', 'fullmatch') and not negated:
+                    leaks = fast_path_leaks(frx, t.func.attr, S1)
+                elif t.func.attr == 'search' and negated:
+                    try:
+                        leaks = S1 - regex_charset(frx, t.func.value.id)
+                    except AnalysisError:
+                        leaks = None
+        if leaks is None:
+            raise AnalysisError(f'escape_text: pre-check `{what[:80]}` is not an enumerated fast path')
+        ctx.check('C02.T2', not leaks, tk, st, f'escape_text returns its argument unchanged when `{what[:70]}`: strings passing that test can still contain {sorted(leaks)!r}'
+                  + (' (`$` also matches in front of a line feed that ends the string)' if leaks == {'\n'} else '') + ', which single-line mode has to escape', func='escape_text', text='fast path lets nothing through that needs escaping')
     shape_ok = False
     detail = 'escape_text must be a single `.sub(_escape_matcher, text)` on the regex chosen by `multiline`'
     if len(rets) == 1 and isinstance(rets[0].value, ast.Call) and isinstance(rets[0].value.func, ast.Attribute) \
@@ -431,6 +530,9 @@ def run(ctx: Any, prog: Program) -> None:
 
 
 MUTANTS = [
+    {'id': 'fast_path_dollar_anchor', 'file': 'tokenizer.py', 'find': "    return (ESCAPE_MULTILINE_RE if multiline else ESCAPE_RE).sub(_escape_matcher, text)", 'replace': "    if _UNESCAPED_RE.match(text) is not None:\n        return text\n    return (ESCAPE_MULTILINE_RE if multiline else ESCAPE_RE).sub(_escape_matcher, text)", 'extra': [{'file': 'tokenizer.py', 'find': "def _escape_matcher(match", 'replace': "_UNESCAPED_RE = re.compile(r'[^\\x00-\\x1f\"\\'\\\\]*$')\n\n\ndef _escape_matcher(match"}], 'expect': 'C02.T2'},
+    {'id': 'ok_fast_path_fullmatch', 'file': 'tokenizer.py', 'find': "    return (ESCAPE_MULTILINE_RE if multiline else ESCAPE_RE).sub(_escape_matcher, text)", 'replace': "    if _UNESCAPED_RE.fullmatch(text) is not None:\n        return text\n    return (ESCAPE_MULTILINE_RE if multiline else ESCAPE_RE).sub(_escape_matcher, text)", 'extra': [{'file': 'tokenizer.py', 'find': "def _escape_matcher(match", 'replace': "_UNESCAPED_RE = re.compile(r'[^\\x00-\\x1f\"\\'\\\\]*')\n\n\ndef _escape_matcher(match"}], 'expect': None},
+    {'id': 'ok_fast_path_search', 'file': 'tokenizer.py', 'find': "    return (ESCAPE_MULTILINE_RE if multiline else ESCAPE_RE).sub(_escape_matcher, text)", 'replace': "    if not ESCAPE_RE.search(text):\n        return text\n    return (ESCAPE_MULTILINE_RE if multiline else ESCAPE_RE).sub(_escape_matcher, text)", 'expect': None},
     {'id': 'crlf_pair_escaped_as_one', 'file': 'tokenizer.py', 'find': "ESCAPE_RE = re.compile('|'.join(\n    re.escape(c) for c in ESCAPES_INV\n", 'replace': "ESCAPES_INV['\\r\\n'] = ESCAPES_INV['\\n']\nESCAPE_RE = re.compile('|'.join(\n    re.escape(c) for c in sorted(ESCAPES_INV, key=len, reverse=True)\n", 'expect': 'C02.T1'},
     {'id': 'multiline_cr_before_lf_left_raw', 'file': 'tokenizer.py', 'find': "ESCAPE_MULTILINE_RE = re.compile('|'.join(\n    re.escape(c) for c in ESCAPES_INV", 'replace': "ESCAPE_MULTILINE_RE = re.compile('|'.join(\n    re.escape(c) + ('(?!\\n)' if c == '\\r' else '') for c in ESCAPES_INV", 'expect': 'C02.T3'},
     {'id': 'escaped_quote_before_newline_ends_string', 'file': 'tokenizer.py', 'find': "                elif escape == '\\n':\n                    continue  # Allow \\ at the end of a line to skip.\n", 'replace': "                elif escape == '\\n':\n                    continue  # Allow \\ at the end of a line to skip.\n                elif escape == '\"' and self._peek_char() in (None, '\\r', '\\n'):\n                    value_chars.append('\\\\')\n                    return Token.STRING, ''.join(value_chars)\n", 'extra': [{'file': 'tokenizer.py', 'find': "    def _get_token(self) -> tuple[Token, str]:\n        \"\"\"Return the next token, value pair.\"\"\"", 'replace': "    def _peek_char(self) -> Optional[str]:\n        char = self._next_char()\n        self._char_index -= 1\n        return char\n\n    def _get_token(self) -> tuple[Token, str]:\n        \"\"\"Return the next token, value pair.\"\"\""}], 'expect': 'C02.T3'},
